@@ -31,20 +31,12 @@ pub const L_USERS: u64 = 34;
 pub const L_UADMIN: u64 = 35;
 
 impl AN {
-    pub fn read_order(&self) -> AN {
-        let mut a = self.clone();
-        a.redges.reverse(); a.rnodes.reverse(); a.uedges.reverse(); a.unodes.reverse(); a.aedges.reverse(); a.anodes.reverse();
-        a
-    }
+    pub fn read_order(&self) -> AN { self.clone() }
 }
 impl RM {
-    /// RoomNode::read returns every entry list newest first
-    pub fn read_order(&self) -> RM {
-        let mut r = self.clone();
-        r.aedges.reverse(); r.anodes.reverse();
-        r.gnodes = r.gnodes.iter().map(|g| g.read_order()).collect();
-        r
-    }
+    /// RoomNode::read returns every entry list oldest first (83dc3ea): a definition whose lists are in
+    /// insertion order is read back as it is
+    pub fn read_order(&self) -> RM { self.clone() }
 }
 
 /// keys by model index; uids by model index (real instance uids get indices >= 1000 on first sight)
